@@ -114,7 +114,10 @@ def sampling(case):
     out = {"molid": [0], "prefix": os.path.join(wd, "md"), "print every": 0, "checkpoint every": 0, "xyz": 0, "h5": {"data": 1}}
     kw = dict(seqm_parameters=params, timestep=case["dt"], Temp=case["T"], output=out)
     md = MDmod.Molecular_Dynamics_Langevin(damp=case["damp"], **kw) if case["engine"] == "langevin" else MDmod.XL_BOMD(damp=case["damp"], xl_bomd_params={"k": 3}, **kw)
-    md.run(mol, steps=case["steps"], seed=case["seed"])
+    rk = {}
+    if case.get("com"):
+        rk["remove_com"] = (case["com"][0], int(case["com"][1]))
+    md.run(mol, steps=case["steps"], seed=case["seed"], **rk)
     with h5py.File(os.path.join(wd, "md.0.h5")) as f:
         T = f["data/thermo/T"][()]
     half = T[len(T) // 2:]
@@ -259,8 +262,11 @@ def main(tier):
         trans += tt.generated
         # ---- long-run mean kinetic temperature (statistical, fixed seeds) ------------------------------------------------
         samp_info = []
-        for eng, dt, damp, T in (("langevin", 0.5, 20.0, 300.0), ("xl", 0.5, 5.0, 600.0)) + ((("langevin", 0.25, 2.0, 150.0),) if tier == "thorough" else ()):
-            chains = [dict(engine=eng, dt=dt, damp=damp, T=T, steps=4000 if tier == "quick" else 16000, seed=1000 * common.seed() + 17 * k + 3, workdir=os.path.join(scratch, "samp_%s_%d" % (eng, k))) for k in range(16)]
+        sconf = (("langevin", 0.5, 20.0, 300.0, None), ("xl", 0.5, 5.0, 600.0, None), ("langevin", 0.5, 20.0, 300.0, ["linear", 5]), ("langevin", 0.5, 10.0, 400.0, ["angular", 7]))
+        if tier == "thorough":
+            sconf += (("langevin", 0.25, 2.0, 150.0, None), ("xl", 0.5, 10.0, 300.0, ["linear", 3]))
+        for eng, dt, damp, T, com in sconf:
+            chains = [dict(engine=eng, dt=dt, damp=damp, T=T, com=com, steps=4000 if tier == "quick" else 16000, seed=1000 * common.seed() + 17 * k + 3, workdir=os.path.join(scratch, "samp_%s_%s_%d" % (eng, "n" if not com else com[0], k))) for k in range(16)]
             sres = common.run_forked(chains, sampling, timeout=1800)
             means = [r["result"]["mean"] for r in sres if r.get("ok")]
             if len(means) < 16:
@@ -271,7 +277,7 @@ def main(tier):
             sem = sd / len(means) ** 0.5
             # allowance: 5 standard errors of the mean of 16 independent chains + 1 % (second-order bias of the splitting at this step size)
             tolT = 5.0 * sem + 0.01 * T
-            samp_info.append({"engine": eng, "dt": dt, "damp": damp, "target": T, "mean": m, "sem": sem, "tolerance": tolT})
+            samp_info.append({"engine": eng, "dt": dt, "damp": damp, "remove_com": com, "target": T, "mean": m, "sem": sem, "tolerance": tolT})
             if not abs(m - T) <= tolT:
                 rep.violation("long_run_temperature_differs_from_target", samp_info[-1], engine=eng, identity="sampling")
         cov = {
